@@ -21,6 +21,9 @@ OPS = ['read-ok', 'read-secop-error', 'read-other-error', 'read-invalid', 'write
        'read-ok-n', 'assign-struct', 'announce-with-timestamp']
 
 
+LATE_OPS = [OPS.index(n) for n in ('read-ok', 'read-secop-error', 'assign', 'assign-same', 'announce-error', 'announce-with-timestamp')]
+
+
 def cases(tier):
     depth = 4 if tier == 'thorough' else 3
     out = []
@@ -109,7 +112,12 @@ def run_history(env, p):
             compare(env, state, cache_state(mod), K + '/snapshot')
         if step == p['depth']:
             break
-        op = p['first'] if step == 0 else env.choice(f'op{step}', len(OPS))
+        if step == 0:
+            op = p['first']
+        elif p['depth'] > 3 and step >= 2:
+            op = LATE_OPS[env.choice(f'op{step}', len(LATE_OPS))]   # thorough: reduced alphabet for the last steps
+        else:
+            op = env.choice(f'op{step}', len(OPS))
         clock.now = clock.now + env.real(f'dt{step}', 0, 50)
         name = OPS[op]
         before = cache_state(mod)
